@@ -33,8 +33,9 @@ Classify(file, userid, password) ==
         creds |-> IF u = Str(Anonymous) /\ p = Str(Anonymous) THEN "anon"
                   ELSE IF u = Str(userid) /\ p = Str(password) THEN "user" ELSE "other"]
 
+NoP == {env.nopersist[i] : i \in 1..Len(env.nopersist)}
 JudgeCall(e) ==
-  LET exp == Posts(st, e.client, e.kind, e.mode, env.adv, env.sets)
+  LET exp == Posts(st, e.client, e.kind, e.mode, env.adv, env.sets, NoP)
       n0 == Len(st.sent)
       want == SubSeq(exp.sent, n0 + 1, Len(exp.sent)) IN
   << <<"number-of-posts expected " \o ToString(Len(want)) \o " got " \o ToString(Len(e.posts)), Len(e.posts) = Len(want)>> >> \o
@@ -50,7 +51,7 @@ JudgeCall(e) ==
              <<"post-cookie", p.cookie = want[i].cookie>>,
              <<"post-content-type", p.ctype = OFXMIME>>,
              <<"post-accept-admits-ofx", HasSub(p.accept, OFXMIME) \/ HasSub(p.accept, STARSTAR)>>,
-             <<"post-user-agent", p.ua = env.useragent>> >>]))
+             <<"post-user-agent", p.ua = env.useragent[e.client]>> >>]))
 
 Init == l = 1 /\ env = [none |-> 0] /\ st = [none |-> 0]
 Next == /\ l <= Len(Log)
@@ -59,7 +60,7 @@ Next == /\ l <= Len(Log)
            THEN /\ env' = e
                 /\ st' = [jar |-> [c \in {"c1", "c2", "c3"} |-> [h \in Hosts |-> 0]], issued |-> <<>>, next |-> 1, sent |-> <<>>]
            ELSE /\ Report(e.id, JudgeCall(e))
-                /\ st' = Posts(st, e.client, e.kind, e.mode, env.adv, env.sets) /\ UNCHANGED env
+                /\ st' = Posts(st, e.client, e.kind, e.mode, env.adv, env.sets, NoP) /\ UNCHANGED env
         /\ l' = l + 1
 Spec == Init /\ [][Next]_vars
 =============================================================================
